@@ -7,6 +7,7 @@ const (
 	FlagHotW            = 1 << iota // statement may write possibly shared state
 	FlagHotR                        // statement may read possibly shared state
 	FlagUncontrolledMap             // map range that could not be canonicalised
+	FlagSync                        // statement calls a method of a sync or sync/atomic value
 )
 
 var SiteFlags []uint8
